@@ -7,7 +7,7 @@ from . import common as C
 
 ALPHABET = [0x00, 0x7F, 0x80, 0xBF, 0xC0, 0xC1, 0xC2, 0xDF, 0xE0, 0xED, 0xEF, 0xF0, 0xF4, 0xF5, 0xFF, 0x9F, 0xA0, 0x8F, 0x90]
 THEOREMS = ["literal_roundtrip", "literal_ascii", "runes_spec", "runesToString_spec", "index_spec", "index_in_range",
-            "substring_spec", "bytesToString_chunk_spec", "bytesToString_spec", "stringToBytes_spec", "decode_spec", "decode_width", "range_spec", "encode_spec", "spec_decode_encode", "decode_encode",
+            "substring_spec", "substringOpen_spec", "bytesToString_chunk_spec", "bytesToString_spec", "stringToBytes_spec", "decode_spec", "decode_width", "range_spec", "encode_spec", "spec_decode_encode", "decode_encode",
             "encode_nonscalar", "core_specO"]
 RUNE_BOUNDS = [0, 0x7F, 0x80, 0x7FF, 0x800, 0xD7FF, 0xD800, 0xDFFF, 0xE000, 0xFFFD, 0xFFFF, 0x10000, 0x10FFFF, 0x110000,
                0x7FFFFFFF, -1, -0x80000000]
@@ -56,6 +56,7 @@ def gen_ops(tier, rng):
         lo = rng.randrange(-1, len(s) + 2)
         hi = rng.randrange(-1, len(s) + 2)
         ops.append("utf8 substring %s %d %d" % (h, lo, hi))
+        ops.append("utf8 substringopen %s %d" % (h, lo))
         ops.append("utf8 copy %d %s" % (rng.randrange(0, len(s) + 3), h))
     # all slice index pairs of a few strings
     for s in ([], [0x61], [0x61, 0xE2, 0x82, 0xAC], [0xFF, 0x00, 0x80, 0x7F, 0xC2]):
